@@ -205,6 +205,15 @@ def run(ctx):
     from .c09 import every_name_gets_a_slot
     every_name_gets_a_slot(ctx, prog.crate("wow_mpq"), "C20")
 
+    # output written through a buffering adapter is flushed with a checked result: the adapters' Drop swallows the last write's
+    # error, so `exit 0` could otherwise follow an incomplete output file (everything the CLI commands can reach, library exporters
+    # included)
+    from .c12 import buffered_writer_flush_rule
+    from .. import mirg as _mirg
+    cg_all = _mirg.CallGraph(prog.all_workspace())
+    cli_roots = [p_ for p_ in cg_all.fns if p_.startswith("warcraft_rs::") and "::commands::" in p_]
+    buffered_writer_flush_rule(ctx, cg_all.local_reachable(cli_roots), cg_all.fns, "C20", floor=200)
+
     # work lists are narrowed only on the user's request
     R_work = ctx.rule("C20.work-list-narrowed-only-by-user-filter", "in the mpq extract/create/list commands a `retain`/`truncate`/`drain`/`dedup` on a file list is conditional on an option the user passed", floor=1)
     from .c07 import enclosing_if_conditions
